@@ -66,12 +66,13 @@ OpsStdQ == {"New", "CloneRoot", "DropRoot", "Store", "DropStored", "Downgrade", 
 OpsGraph == {"New", "Edge", "DropRoot"}
 CapsG == [strong |-> 99, stored |-> 1, rec |-> 1, weak |-> 0, storedW |-> 0, over |-> FALSE, elide |-> FALSE, scripted |-> 1, edges |-> 99]
 CapsG6 == [strong |-> 99, stored |-> 1, rec |-> 1, weak |-> 0, storedW |-> 0, over |-> FALSE, elide |-> FALSE, scripted |-> 1, edges |-> 6]
+CapsG7 == [strong |-> 99, stored |-> 1, rec |-> 1, weak |-> 0, storedW |-> 0, over |-> FALSE, elide |-> FALSE, scripted |-> 1, edges |-> 7]
 CapsG2 == [strong |-> 99, stored |-> 2, rec |-> 2, weak |-> 0, storedW |-> 0, over |-> FALSE, elide |-> FALSE, scripted |-> 1, edges |-> 99]
 OpsBuild == {"New", "CloneRoot", "DropRoot", "AdoptStore", "TakeUnadopt", "Store"}
 CapsB == [strong |-> 2, stored |-> 1, rec |-> 1, weak |-> 0, storedW |-> 0, over |-> FALSE, elide |-> FALSE, scripted |-> 1, edges |-> 99]
 OpsWeak3 == {"New", "CloneRoot", "DropRoot", "AdoptStore", "Downgrade", "StoreWeak", "WeakDrop", "Upgrade"}
 OpsDtorT == {"New", "CloneRoot", "DropRoot", "AdoptStore"}
-OpsDtorW == OpsDtorT \cup {"Downgrade", "StoreWeak"}
+OpsDtorW == OpsDtorT \cup {"Downgrade"}
 OpsCoreT == {"New", "CloneRoot", "DropRoot", "AdoptStore", "DropStored", "Take"}
 OpsStdT  == {"New", "CloneRoot", "DropRoot", "Store", "Downgrade", "WeakDrop", "TryUnwrap", "MakeMut", "DropDetached"}
 OpsDtorQ == {"New", "CloneRoot", "DropRoot", "AdoptStore", "Downgrade", "StoreWeak"}
